@@ -624,6 +624,39 @@ func c20r6(rc *core.RC) {
 						}
 					}
 					rc.Check(unsigned || guarded, key, c.Pos(), "the number that becomes an index selector (%s) is refused when it is below zero before the node is made (Path.Get would hand it to reflect.Value.Index: CreatePath(\"$[-1]\") followed by Get on a slice panics)", v.Name())
+					// the number is parsed in the width of the int it becomes: parsed in 64 bits and converted, an index of
+					// 2^32-1 is the selector -1 on a 32-bit build
+					if _, isConv := core.Unparen(c.Args[0]).(*ast.CallExpr); isConv {
+						intBits := int64(64)
+						if pk := p.Pkg("decoder"); pk != nil && pk.TypesSizes != nil {
+							intBits = pk.TypesSizes.Sizeof(types.Typ[types.Int]) * 8
+						}
+						key2 := fmt.Sprintf("%s/addIndexNode#%d parsed-in-the-width-of-int", fn, k)
+						width := int64(-1)
+						ast.Inspect(fd.Body, func(y ast.Node) bool {
+							if as, isAs := y.(*ast.AssignStmt); isAs && len(as.Rhs) == 1 && len(as.Lhs) >= 1 && core.ObjOf(info, as.Lhs[0]) == v {
+								if pc, isCall := core.Unparen(as.Rhs[0]).(*ast.CallExpr); isCall && len(pc.Args) == 3 {
+									if cn := core.CalleeName(info, pc); cn == "strconv.ParseInt" || cn == "strconv.ParseUint" {
+										if w, isC := core.ConstInt(info, pc.Args[2]); isC {
+											width = w
+											if w == 0 {
+												width = intBits
+											}
+										}
+									}
+								}
+							}
+							return true
+						})
+						switch {
+						case width < 0:
+							rc.Unknown(key2, c.Pos(), "the width the index is parsed in was not recognised")
+						case width <= intBits:
+							rc.OK(key2, c.Pos(), "parsed in %d bits, int has %d in this configuration", width, intBits)
+						default:
+							rc.Bad(key2, c.Pos(), "the index is parsed in %d bits and converted to int, which has %d bits in this configuration: CreatePath(\"$[4294967295]\") is accepted, the selector becomes -1 and Path.Get hands it to reflect.Value.Index (panic)", width, intBits)
+						}
+					}
 					return true
 				})
 			}
